@@ -426,6 +426,45 @@ func c13ConnectionFlood(c *Ctx) {
 				}
 			}(g)
 		}
+		// … and verified controllers doing ordinary things at the same time: two subscribe and unsubscribe in turn, one
+		// writes the value, one reads the database
+		for g := 0; g < 4; g++ {
+			wg.Add(1)
+			go func(g int) {
+				defer wg.Done()
+				cl, err := acc.Dial()
+				if err != nil {
+					return
+				}
+				defer cl.Close()
+				vr := refPairVerify(rand.New(rand.NewSource(int64(g)+77)), cl.Post(), ident, sr.AccLTPK)
+				if vr.Shared == nil {
+					return
+				}
+				cl.Upgrade(vr.Shared)
+				cl.timeout = 2 * time.Second
+				for k := 0; ; k++ {
+					select {
+					case <-stop:
+						return
+					default:
+					}
+					var err error
+					switch g {
+					case 0, 1:
+						_, err = cl.Do("PUT", "/characteristics", "application/hap+json", []byte(fmt.Sprintf(`{"characteristics":[{"aid":%d,"iid":%d,"ev":%v}]}`, acc.aid, acc.iid, k%2 == 0)))
+					case 2:
+						_, err = cl.Do("PUT", "/characteristics", "application/hap+json", []byte(fmt.Sprintf(`{"characteristics":[{"aid":%d,"iid":%d,"value":%v}]}`, acc.aid, acc.iid, k%2 == 0)))
+					default:
+						_, err = cl.Do("GET", "/accessories", "", nil)
+					}
+					if err != nil {
+						return
+					}
+					cl.Events = nil
+				}
+			}(g)
+		}
 		time.Sleep(time.Duration(c.Pick(1500, 6000)) * time.Millisecond)
 		close(stop)
 		wg.Wait()
@@ -593,6 +632,42 @@ func checkC13E2E(c *Ctx) {
 				c.Violate("remote input ends the accessory process", id, desc, "accessory keeps serving", "process exited")
 				return
 			}
+		}
+	}
+	// ---- unusual but legal framing of a well-formed request on a verified connection
+	for k, fr := range []string{"chunked", "huge-content-length"} {
+		cl, err := acc.Dial()
+		if err != nil {
+			c.Violate("accessory does not accept connections any more", id, fr, "connect", err.Error())
+			return
+		}
+		vr := refPairVerify(r, cl.Post(), ident, sr.AccLTPK)
+		if vr.Shared == nil {
+			c.Violate("paired reference controller cannot verify", id, fr, "verified", vr.ErrAt)
+			cl.Close()
+			continue
+		}
+		cl.Upgrade(vr.Shared)
+		body := fmt.Sprintf(`{"characteristics":[{"aid":%d,"iid":%d,"value":%v}]}`, swID, onID, k == 0)
+		var req string
+		if fr == "chunked" {
+			req = fmt.Sprintf("PUT /characteristics HTTP/1.1\r\nHost: acc.local\r\nContent-Type: application/hap+json\r\nTransfer-Encoding: chunked\r\n\r\n%x\r\n%s\r\n0\r\n\r\n", len(body), body)
+		} else {
+			req = "PUT /characteristics HTTP/1.1\r\nHost: acc.local\r\nContent-Type: application/hap+json\r\nContent-Length: 100000000000\r\n\r\n{"
+		}
+		cl.conn.Write(cl.sess.Encrypt([]byte(req)))
+		cl.timeout = 2 * time.Second
+		m, merr := cl.next(cl.timeout)
+		desc := "tcp verified connection: well-formed PUT /characteristics, " + fr
+		c.Count(desc, true, "e2e:framing")
+		if fr == "chunked" && (merr != nil || m == nil || m.Status != 204) {
+			c.Violate("remote input is answered by a dropped connection instead of a response", id, map[string]interface{}{"scenario": desc, "request": req}, "204", fmt.Sprint(merr, m))
+		}
+		cl.Close()
+		time.Sleep(50 * time.Millisecond)
+		if !acc.Alive() {
+			c.Violate("remote input ends the accessory process", id, map[string]interface{}{"scenario": desc, "request": trunc(req, 300)}, "accessory keeps serving", "process exited")
+			return
 		}
 	}
 	// ---- raw frames on a verified connection (the length field of a frame is not authenticated before it is used)
